@@ -70,6 +70,40 @@ def shape_src(shape, n):
         return "{{ " + "a[" * n + "0" + ":]" * n + " }}"
     if shape == "opt_subscript":
         return "{{ " + "a?[" * n + "0" + "]" * n + " }}"
+    if shape == "lit_subscript":
+        return "{{ " + "1[" * n + "0" + "]" * n + " }}"
+    if shape == "str_subscript":
+        return "{{ " + "'ab'[" * n + "0" + "]" * n + " }}"
+    if shape == "call_subscript":
+        return "{{ " + "range(end=3)[" * n + "0" + "]" * n + " }}"
+    if shape == "paren_subscript":
+        return "{{ " + "(a)[" * n + "0" + "]" * n + " }}"
+    if shape == "array_subscript":
+        return "{{ " + "[1][" * n + "0" + "]" * n + " }}"
+    if shape == "mixed_subscript":
+        return "{{ " + "".join("a[" if i % 2 == 0 else "1[" for i in range(n)) + "0" + "]" * n + " }}"
+    if shape == "lit_slice_bound":
+        return "{{ " + "1[:" * n + "0" + "]" * n + " }}"
+    if shape == "alt_paren_subscript":
+        return "{{ " + "".join("a[" if i % 2 == 0 else "(" for i in range(n)) + "0" + "".join("]" if i % 2 == 0 else ")" for i in reversed(range(n))) + " }}"
+    if shape == "alt_array_map":
+        return "{{ " + "".join("[" if i % 2 == 0 else '{"a": ' for i in range(n)) + "1" + "".join("]" if i % 2 == 0 else "}" for i in reversed(range(n))) + " }}"
+    if shape == "alt_call_array":
+        return "{{ " + "".join("range(end=" if i % 2 == 0 else "[" for i in range(n)) + "1" + "".join(")" if i % 2 == 0 else "]" for i in reversed(range(n))) + " }}"
+    if shape == "alt_neg_paren":
+        return "{{ " + "".join("-" if i % 2 == 0 else "(" for i in range(n)) + "1" + "".join("" if i % 2 == 0 else ")" for i in reversed(range(n))) + " }}"
+    if shape == "alt_not_paren":
+        return "{{ " + "".join("not " if i % 2 == 0 else "(" for i in range(n)) + "1" + "".join("" if i % 2 == 0 else ")" for i in reversed(range(n))) + " }}"
+    if shape == "alt_ternary_paren":
+        return "{{ " + "".join("1 if 0 else " if i % 2 == 0 else "(" for i in range(n)) + "2" + "".join("" if i % 2 == 0 else ")" for i in reversed(range(n))) + " }}"
+    if shape == "alt_filter_arg_subscript":
+        return "{{ " + "".join("1 | default(value=" if i % 2 == 0 else "a[" for i in range(n)) + "0" + "".join(")" if i % 2 == 0 else "]" for i in reversed(range(n))) + " }}"
+    if shape == "alt_if_for":
+        return "".join("{% if 1 %}" if i % 2 == 0 else "{% for i in [1] %}" for i in range(n)) + "x" + "".join("{% endif %}" if i % 2 == 0 else "{% endfor %}" for i in reversed(range(n)))
+    if shape == "alt_set_filter_section":
+        return "".join("{% set v %}" if i % 2 == 0 else "{% filter upper %}" for i in range(n)) + "x" + "".join("{% endset %}" if i % 2 == 0 else "{% endfilter %}" for i in reversed(range(n)))
+    if shape == "alt_comprehension_paren":
+        return "{{ " + "".join("[x for x in " if i % 2 == 0 else "(" for i in range(n)) + "[1]" + "".join("]" if i % 2 == 0 else ")" for i in reversed(range(n))) + " }}"
     if shape == "elif":
         return "{% if 0 %}a" + "{% elif 0 %}a" * n + "{% endif %}"
     if shape == "binop":
